@@ -383,8 +383,56 @@ class World:
         except Exception:       # noqa: BLE001
             pass
 
+    def interleaved(self, call, cap):
+        """`iter_cus_il` / `iter_cus_ex_il`: the enumeration of the unit blocks (and, for range lists, of each block's
+        lists) on an object on which NOTHING has been parsed yet, with a step of ordinary client work between two
+        advances of the suspended generators: (a) the next not yet parsed entry of .debug_info is parsed — its
+        DW_FORM_loclistx / DW_FORM_rnglistx / DW_FORM_strx values are translated at that moment, through the offset
+        tables of the very section being enumerated; (b) the list just yielded is translated entry by entry
+        (startx / base_addressx entries go through get_addr -> get_top_DIE, a first-time parse of the unit entry).
+        The property does not let the enumeration depend on where such work leaves the shared section stream: the
+        result must be the plain enumeration's (same expectation, same model answer).  A seeded clean-up that dropped
+        `preserve_stream_pos` from the offset-table read was missed while entries were always parsed before the walk."""
+        L = self.lists
+
+        def entries():
+            for cu in self.di.iter_CUs():
+                for d in cu.iter_DIEs():
+                    yield d
+        touch = entries()
+
+        def poke(k, lst=()):
+            try:
+                next(touch)
+            except Exception:       # noqa: BLE001  (StopIteration included)
+                pass
+            if self.c['what'] == 'rng':
+                try:
+                    cu = self.cu(k) if k < len(self.cus) else None
+                    for e in lst:
+                        L.translate_v5_entry(e, cu)
+                except Exception:       # noqa: BLE001
+                    pass
+        out = []
+        for k, h in enumerate(L.iter_CUs()):
+            if len(out) > cap:
+                raise Runaway('more unit blocks than section bytes')
+            poke(k)
+            if call == 'iter_cus_il':
+                out.append(cn(h))
+                continue
+            lists = []
+            for lst in L.iter_CU_range_lists_ex(h):
+                lists.append(cn(lst))
+                if len(lists) > cap:
+                    raise Runaway('more items than section bytes')
+                poke(k, lst)
+            out.append(lists)
+        return out
+
     def model_req(self, call, **kw):
         c = self.c
+        call = {'iter_cus_il': 'iter_cus', 'iter_cus_ex_il': 'iter_cus_ex'}.get(call, call)
         rq = {'p': P, 'k': 'model', 'what': c['what'], 'ver': c['ver'], 'le': c['le'], 'asz': c['asz'], 'hex': hx(self.data),
               'call': call, 'cus': [cu_json(cu) for cu in self.cus]}
         if self.addr is not None:
@@ -420,6 +468,8 @@ class World:
                 if len(out) > cap:
                     raise Runaway('more items than section bytes')
             return out
+        if call in ('iter_cus_il', 'iter_cus_ex_il'):
+            return World(self.c, self.data, self.addr, self.cus).interleaved(call, cap)
         if call == 'iter_cus':
             out = []
             for k, h in enumerate(L.iter_CUs()):
@@ -796,8 +846,10 @@ def sec_calls(c, r, cus, refs):
         if ver >= 5:
             offs = sorted({it['off'] for it in lists.values()})
             calls.append(('iter_cus', {'disturb': offs}, [ur['hdr'] for ur in r['units']], r['wf']))
+            calls.append(('iter_cus_il', {}, [ur['hdr'] for ur in r['units']], r['wf']))
             if what == 'rng':
                 calls.append(('iter_cus_ex', {'disturb': offs}, [ur['lists'] for ur in r['units']], allwf))
+                calls.append(('iter_cus_ex_il', {}, [ur['lists'] for ur in r['units']], allwf))
     return calls
 
 
